@@ -738,6 +738,9 @@ class Interp:
         pending_keys: List[Tuple[Dict[str, Any], int]] = []
         journal: List[Tuple[Dict[str, Any], Any]] = []
         last = params[-1] if params else None
+        # keys are scoped: the keys of this parameter list hide equally named keys of enclosing lists while it is encoded
+        own_keys = [(p["name"], e.length_keys if p["t"] == "LENGTH-KEY" else e.table_keys) for p in params if p["t"] in ("LENGTH-KEY", "TABLE-KEY")]
+        hidden = [(d, n, d.pop(n)) for n, d in own_keys if n in d]
         for p in params:
             t = p["t"]
             byte = origin + p["byte"] if p.get("byte") is not None else cursor
@@ -847,6 +850,10 @@ class Interp:
                     raise Reject("unknown row")
                 self.enc_dop(table["key_dop"], row["key"], e, byte, bit, False)
                 out[name] = row["name"]
+        for n, d in own_keys:
+            d.pop(n, None)
+        for d, n, val in hidden:
+            d[n] = val
         # keep the declared order of keys in the result
         return cursor, {p["name"]: out[p["name"]] for p in params if p["name"] in out}
 
